@@ -769,3 +769,8 @@ impl Repr {
 pub(crate) unsafe fn verif_refcount_of_data_ptr(data_ptr: *const u8) -> usize {
     unsafe { HeapBuffer::verif_refcount_of_data_ptr(data_ptr) }
 }
+
+#[cfg(all(feature = "verif-hooks", not(loom)))]
+pub(crate) unsafe fn verif_set_refcount_of_data_ptr(data_ptr: *const u8, count: usize) {
+    unsafe { HeapBuffer::verif_set_refcount_of_data_ptr(data_ptr, count) }
+}
